@@ -308,6 +308,9 @@ type caseSpec struct {
 	// logMode: "" or one of logModes - a log file that CAN be opened is
 	// configured on top of the faults (never together with a log fault).
 	logMode string
+	// stdio: nil, or (TTY runs only) what descriptors 0-2 are while the pty is
+	// the controlling terminal all the same.
+	stdio *stdio
 }
 
 // Ways of configuring an openable log file: through the flag or through the
@@ -436,6 +439,8 @@ type runRecord struct {
 	ModeAfter  string   `json:"mode_after,omitempty"`
 	ModeSame   *bool    `json:"mode_restored,omitempty"`
 	WallMs     int64    `json:"wall_ms"`
+	// descriptors 0-2 when they are not all the controlling terminal
+	Stdio string `json:"descriptors,omitempty"`
 	// an openable log file configured on top of the faults
 	Log      string `json:"openable_log_file,omitempty"`
 	LogThere *bool  `json:"log_file_exists_after_run,omitempty"`
@@ -536,18 +541,43 @@ func (e *env) runCase(c caseSpec, col *collector) {
 	if c.logMode != "" {
 		classKey += "@openable-log"
 	}
+	if c.stdio != nil {
+		classKey += "@redirected-stdio"
+	}
 	sig := fmt.Sprintf("%v|%s|tty=%v", names, c.flag, !c.noTTY)
 	if c.logMode != "" {
 		sig += "|openable-log=" + c.logMode
 	}
+	if c.stdio != nil {
+		sig += "|" + c.stdio.String()
+	}
 
 	t0 := time.Now()
-	p, err := ptyx.Start(ptyx.Opts{Path: e.bin, Args: args, Env: envv, Dir: dir, NoTTY: c.noTTY, Uid: uid})
+	var p *ptyx.Proc
+	var m *mixed
+	var err error
+	if c.stdio != nil {
+		if m, err = startMixed(dir, *c.stdio, []byte("echo c20 from standard input\n"), e.bin, args, envv, uid); err == nil {
+			p = m.p
+			defer m.close()
+		}
+	} else {
+		if p, err = ptyx.Start(ptyx.Opts{Path: e.bin, Args: args, Env: envv, Dir: dir, NoTTY: c.noTTY, Uid: uid}); err == nil {
+			defer p.Close()
+		}
+	}
 	if err != nil {
 		r.Inconclusive(fmt.Sprintf("%s: cannot start the binary: %v", sig, err))
 		return
 	}
-	defer p.Close()
+	// seen: what the program has shown so far (terminal and, with redirected
+	// descriptors, what it wrote to them).
+	seen := func() string {
+		if m != nil {
+			return m.text()
+		}
+		return p.Clean()
+	}
 
 	// Wait for the program to exit by itself (or to start serving).
 	deadline := time.Now().Add(crs.Bound)
@@ -557,7 +587,7 @@ func (e *env) runCase(c caseSpec, col *collector) {
 			exited = true
 			break
 		}
-		if !c.noTTY && listeningRe.MatchString(p.Clean()) {
+		if !c.noTTY && listeningRe.MatchString(seen()) {
 			listening = true
 			break
 		}
@@ -568,10 +598,19 @@ func (e *env) runCase(c caseSpec, col *collector) {
 	if listening {
 		// The fault went unnoticed and the program serves; end it as an
 		// operator would.
-		p.Write([]byte{4})
-		_, _, exited = p.WaitExit(crs.Bound)
+		if m != nil {
+			m.key([]byte{4})
+			m.eof()
+			_, _, exited = m.waitExit(3*time.Second, 4)
+		} else {
+			p.Write([]byte{4})
+			_, _, exited = p.WaitExit(crs.Bound)
+		}
 	}
 	rec := runRecord{Faults: names, Flag: c.flag, TTY: !c.noTTY, Uid: uid, Args: args, Exited: exited, Listening: listening}
+	if c.stdio != nil {
+		rec.Stdio = c.stdio.String()
+	}
 	if c.logMode != "" {
 		rec.Log = c.logMode + ": " + logPath
 		if fi, err := os.Stat(logPath); err == nil {
@@ -601,8 +640,12 @@ func (e *env) runCase(c caseSpec, col *collector) {
 		out = p.Stdout() + p.Stderr()
 	} else if exited {
 		out = drain(p, fmt.Sprintf("%s-%d", c.engine, c.index))
+		if m != nil {
+			m.settle()
+			out += m.sinks()
+		}
 	} else {
-		out = p.Clean()
+		out = seen()
 	}
 	rec.Output = tail(out, 1500)
 	rec.WallMs = time.Since(t0).Milliseconds()
@@ -666,6 +709,33 @@ func (e *env) runCase(c caseSpec, col *collector) {
 	} else {
 		r.Count("weak_oracle_runs", 1)
 	}
+	observable := true
+	if c.stdio != nil {
+		observable = c.stdio.observable()
+		r.Count("stdio_runs", 1)
+		r.Count("stdio_fault_or_flag_runs", 1)
+		for fd, n := range []string{"stdin", "stdout", "stderr"} {
+			r.Count("stdio_runs_"+n+"-"+c.stdio[fd], 1)
+		}
+		if uid != 0 {
+			r.Count("stdio_runs_as_uid_65534", 1)
+		}
+		if len(c.faults) == 2 {
+			r.Count("stdio_pairs", 1)
+		}
+		if c.flag != flNone {
+			r.Count("stdio_informational_flag_runs", 1)
+		}
+		if strong {
+			r.Count("stdio_strong_oracle_runs", 1)
+			for _, cl := range classes {
+				r.Count("stdio_strong_oracle_runs_class_"+cl, 1)
+			}
+			if !observable {
+				r.Count("stdio_strong_oracle_runs_output_discarded", 1)
+			}
+		}
+	}
 	if c.logMode != "" {
 		r.Count("openable_log_runs", 1)
 		r.Count("openable_log_runs_"+c.logMode, 1)
@@ -710,6 +780,17 @@ func (e *env) runCase(c caseSpec, col *collector) {
 			r.Inconclusive(fmt.Sprintf("%s: cannot read the terminal mode after exit: %v", sig, err))
 		} else {
 			r.Count("termios_comparisons", 1)
+			if c.stdio != nil {
+				r.Count("stdio_termios_comparisons", 1)
+				if c.stdio[0] != kTTY {
+					r.Count("stdio_termios_comparisons_stdin_not_the_terminal", 1)
+				}
+				if strong {
+					for _, cl := range classes {
+						r.Count("stdio_termios_comparisons_class_"+cl, 1)
+					}
+				}
+			}
 			if uid != 0 {
 				r.Count("termios_comparisons_as_uid_65534", 1)
 			}
@@ -759,7 +840,13 @@ func (e *env) runCase(c caseSpec, col *collector) {
 				clean = false
 				viol("fault-exit-status-0:"+classKey, fmt.Sprintf("with %v injected the program exited with status 0", names))
 			}
-			if !named() {
+			if !observable {
+				// stdout or stderr is /dev/null or closed: the message went
+				// where the operator sent it; nothing to demand.
+				if named() {
+					r.Count("stdio_cause_named_although_output_discarded", 1)
+				}
+			} else if !named() {
 				clean = false
 				viol("fault-cause-not-named:"+classKey, fmt.Sprintf("with %v injected no message names any of the causes %v", names, classes))
 			}
@@ -771,6 +858,12 @@ func (e *env) runCase(c caseSpec, col *collector) {
 			}
 			if defaultCache {
 				r.Count("default_location_cache_faults_reported_cleanly", 1)
+			}
+			if c.stdio != nil {
+				r.Count("stdio_faults_reported_cleanly", 1)
+				for _, cl := range classes {
+					r.Count("stdio_faults_reported_cleanly_class_"+cl, 1)
+				}
 			}
 			if c.logMode != "" {
 				r.Count("openable_log_faults_reported_cleanly", 1)
@@ -792,7 +885,7 @@ func (e *env) runCase(c caseSpec, col *collector) {
 		}
 		if rec.Status != 0 {
 			r.Count("weak_oracle_nonzero_exits", 1)
-			if !anyCauseRe.MatchString(out) {
+			if observable && !anyCauseRe.MatchString(out) {
 				viol("fault-cause-not-named:"+classKey, fmt.Sprintf("with %v injected and flag %s the program exited with status %d without a message naming a cause", names, c.flag, rec.Status))
 			}
 		} else {
@@ -814,6 +907,9 @@ func (e *env) runCase(c caseSpec, col *collector) {
 	}
 	if c.logMode != "" {
 		kind += "-with-openable-log"
+	}
+	if c.stdio != nil {
+		kind += "-with-redirected-stdio"
 	}
 	r.Sample(kind, rec)
 	if len(c.faults) == 1 && !c.noTTY && c.flag == flNone {
@@ -1261,7 +1357,7 @@ func probeUid(r *mon.Run, root string) (bool, string) {
 }
 
 func Run(r *mon.Run) {
-	r.Rule = "one distinct case = (set of injected start-up faults by name, informational flag, TTY or not, and - engines logged/loggedpair - the way an OPENABLE log file is configured on top: -log or CURLREVSHELL_LOG, file fresh or already there) for fault runs, (way of ending, option set) for clean exits, (way of ending, when Tab was pressed relative to it, shell none/attached/stalled, kind of Ctrl+I source, option set) for exits with insertions pending; every case is a run of the real, race-built binary judged on exit status, complete output and termios of the pty before/after"
+	r.Rule = "one distinct case = (set of injected start-up faults by name, informational flag, TTY or not, and - engines logged/loggedpair - the way an OPENABLE log file is configured on top: -log or CURLREVSHELL_LOG, file fresh or already there; engines stdio/stdiopair - what descriptors 0, 1 and 2 are while the pty stays the CONTROLLING terminal: the terminal, /dev/null, a pipe, a regular file, closed) for fault runs, (way of ending, option set) for clean exits, (way of ending, what descriptors 0-2 are, option set) for clean exits with redirected descriptors (engine stdioclean), (kind of unusable Ctrl+I source or member, member name, -print-ctrl-i on a TTY / without one / into a pipe / into a file or Tab / Ctrl+J followed by Ctrl+C / Ctrl+D, other fault) for the Ctrl+I source runs (engine ctrlisrc), (way of ending, when Tab was pressed relative to it, shell none/attached/stalled, kind of Ctrl+I source, option set) for exits with insertions pending; every case is a run of the real, race-built binary judged on exit status, complete output and termios of the pty before/after"
 	r.Assumptions = append(r.Assumptions,
 		"the program is started as a session leader on a fresh pty (TTY) or with setsid, no controlling terminal and stdio on pipes/dev-null (no TTY)",
 		"'names the cause' is judged by class keywords (tty|terminal, listen, cach|certificate, log, ctrl+i|insert|source), case-insensitively, on pty+stdout+stderr; the offending path/address is only counted, not demanded",
@@ -1272,6 +1368,9 @@ func Run(r *mon.Run) {
 		"pending-insertion exits: -ctrl-i names a non-empty file or directory; Tab is pressed once or many times in the same write as Ctrl+C/Ctrl+D (optionally after a complete or an unfinished line), or the exit follows the announcement ('Inserting') or the completion ('Inserted') of the insertion, or Tab is pressed in batches of 64 until insertions stop completing (no shell attached and up to 199 lines entered first, or a shell that never reads its input and a 16-32 KiB source) plus 0-5 more; ended by Ctrl+C, Ctrl+D or (light variants only) by the end of the shell under -one-shell; judged like the other clean exits: status 0, no crash output, terminal mode restored; 'Goodbye' is only counted",
 		"a shell that never reads keeps the program from finishing its exit (not an exit, hence outside this property): in the stalled-shell scenarios its connections are dropped 2 s after Ctrl+C/Ctrl+D if the program is still there, and since the exit then coincides with a broken connection only crash output, signals and the terminal mode are judged there, a non-zero status is counted",
 		"whether insertions were unfinished at the exit is read off the final terminal text (more 'Inserting' than 'Inserted' lines, or fewer announcements than Tabs); time-outs only steer the workload (when to stop pressing Tab), never a verdict",
+		"redirected-descriptor dimension (TTY x descriptors): besides 'everything on the pty' and 'no controlling terminal', the program is run as session leader of the pty (TIOCSCTTY, so /dev/tty is the pty) with standard input and/or output and/or error being /dev/null, a pipe held by the harness, a regular file, or closed (closed by a /bin/sh that replaces itself with the program) - `curlrevshell </dev/null`, `printf ... | curlrevshell`, `curlrevshell 2>file` typed at an interactive terminal; every start-up fault alone (quick: once with only standard input redirected, once with stdout/stderr redirected, once with a drawn combination), sampled cross-class pairs, and the informational flags; the termios compared before/after is that of the CONTROLLING terminal; exit status, crash output and terminal mode are judged as everywhere else; the message naming the cause is looked for on pty + redirected stdout + redirected stderr and is only demanded when neither stdout nor stderr is /dev/null or closed (otherwise the operator discarded it; counted)",
+		"clean exits with redirected descriptors: Ctrl+C / Ctrl+D are delivered through standard input where it is the terminal or a pipe (bytes 0x03/0x04, also after an unfinished line); where standard input is /dev/null, closed, a file (empty or with lines, possibly an unfinished last one) or a pipe whose writer goes away, the exit is the end of input; with and without a shell attached; -one-shell completion with Enter delivered through standard input if the program waits for a line; keys are only typed on a terminal once the program shows it is up ('Listening on' where stdout can be seen, else the terminal's mode having changed), because before that they would be signals; if a program whose standard input cannot deliver keys is still there after 3 s the key is also typed on the terminal (steers the workload only); judged: status 0, no crash output, terminal mode restored",
+		"Ctrl+I source class widened from missing/unset to 'exists but holds something unusable': a directory with one good member and one member named *.sh / *.subr / *.pl that is a dangling symbolic link (absolute, relative), a two-link loop, unreadable (uid 65534, mode 000), a FIFO, a socket, a directory, a link to a directory / FIFO / device, or a file removed and recreated in a loop while the program runs; a directory whose names can be listed but whose members cannot be examined, or which cannot be listed (uid 65534, modes 0744 / 0711); a single source that is unreadable, a link loop, a socket, a link to a device or FIFO, or below an unsearchable directory; with -print-ctrl-i (TTY, no TTY, stdout into a pipe or file, and paired with a listen / log / cache fault) the statement is read as: the program may fail or may succeed without the member; no crash output or signal, a non-zero status comes with a message naming a cause, terminal mode restored; not exiting within 30 s is inconclusive (a FIFO being read is first given a writer); interactively Tab or Ctrl+J is pressed 1-3 times, the reaction awaited for at most 10 s (steering only), then Ctrl+C / Ctrl+D: no crash output, terminal mode restored, and status 0 if the program was still running when asked to leave",
 		"default-location cache faults: no -tls-certificate-cache argument; HOME / XDG_CACHE_HOME point below /proc, below a regular file, or (uid 65534) into a root-owned 0555 directory",
 	)
 
@@ -1493,6 +1592,69 @@ func Run(r *mon.Run) {
 			addLogged("loggedpair", i, []int{p.a, p.b}, flNone, rng.IntN(3) == 0, logModes[rng.IntN(len(logModes))])
 		}
 	}
+	// ---- the same faults with descriptors 0-2 that are not all the terminal ----
+	// Index of a case = its place in (fault or none, flag, variant); variants
+	// 0-3: only standard input is something else (null, pipe, file, closed, in
+	// an order rotated by the seed); 4-6: standard input is the terminal,
+	// stdout and/or stderr are not; 7-9: any combination, from the case's PRNG.
+	const stdioVariants = 10
+	stdioOf := func(engine string, index, f, v int) stdio {
+		switch {
+		case v < 4:
+			return stdio{stdioKinds[1+(f+1+v+rot)%4], kTTY, kTTY}
+		case v < 7:
+			return outErrStdio[((f+1)*3+(v-4)*7+rot)%len(outErrStdio)]
+		}
+		return mixedStdio[r.Rng(engine, index).IntN(len(mixedStdio))]
+	}
+	addStdio := func(engine string, index int, fs []int, flag string, sp stdio) {
+		c := caseSpec{engine: engine, index: index, faults: fs, flag: flag, stdio: &sp}
+		if flag == flCtrlI && e.hasClass(c, clCtrlI) {
+			return
+		}
+		if len(fs) == 0 && flag == flNone {
+			return // a normal run: covered by the clean exits with such descriptors
+		}
+		if r.Want(engine, index) {
+			cases = append(cases, c)
+		}
+	}
+	for f := -1; f < len(e.faults); f++ {
+		var fs []int
+		if f >= 0 {
+			fs = []int{f}
+		}
+		for fi, flag := range allFlags {
+			for v := 0; v < stdioVariants; v++ {
+				index := ((f+1)*len(allFlags)+fi)*stdioVariants + v
+				if !r.Thorough() {
+					// quick: without a flag every fault with standard input
+					// redirected, with stdout/stderr redirected, and with one
+					// drawn combination; one informational flag per fault; the
+					// fault-free runs with every flag.
+					want := v == 0 || v == 4 || v == 7
+					if flag != flNone && f >= 0 {
+						want = fi == 1+(f+rot)%3 && v == []int{0, 4, 7}[(f+rot)%3]
+					}
+					if !want {
+						continue
+					}
+				} else if flag != flNone && f >= 0 && v%3 != 0 {
+					continue
+				}
+				addStdio("stdio", index, fs, flag, stdioOf("stdio", index, f, v))
+			}
+		}
+	}
+	for i, n := 0, r.N(16, 240); i < n; i++ {
+		rng := r.Rng("stdiopair", i)
+		p := prs[rng.IntN(len(prs))]
+		sp := mixedStdio[rng.IntN(len(mixedStdio))]
+		if rng.IntN(2) == 0 {
+			sp = stdio{stdioKinds[1+rng.IntN(4)], kTTY, kTTY}
+		}
+		addStdio("stdiopair", i, []int{p.a, p.b}, flNone, sp)
+	}
 	r.Extra("fault_pairs_possible", len(prs))
 	r.Logf("%d faults, %d cross-class pairs, %d fault runs planned", len(e.faults)+1, len(prs), len(cases))
 
@@ -1518,19 +1680,84 @@ func Run(r *mon.Run) {
 			cl = append(cl, i)
 		}
 	}
-	mon.Parallel(len(cl), 6, func(i int) {
-		guard(fmt.Sprintf("clean-%d", cl[i]), func() { e.runClean(cl[i], col) })
-	})
+	// The clean exits, those with redirected descriptors and the Ctrl+I source
+	// runs share one pool of workers (the longer-running ones first).
+	type task struct {
+		name string
+		f    func()
+	}
+	var tasks []task
+	for _, i := range cl {
+		tasks = append(tasks, task{fmt.Sprintf("clean-%d", i), func() { e.runClean(i, col) }})
+	}
 	var zs []int
 	for i := 0; i < 2; i++ {
 		if r.Want("icanhazip", i) {
 			zs = append(zs, i)
 		}
 	}
-	mon.Parallel(len(zs), 2, func(i int) {
-		guard(fmt.Sprintf("icanhazip-%d", zs[i]), func() { e.runIcanhazip(zs[i], col) })
-	})
-	r.Logf("clean exits done")
+	for _, i := range zs {
+		tasks = append(tasks, task{fmt.Sprintf("icanhazip-%d", i), func() { e.runIcanhazip(i, col) }})
+	}
+	// clean exits with descriptors 0-2 that are not all the terminal
+	var cm []int
+	for i, n := 0, r.N(1, 5)*len(cleanMixed); i < n; i++ {
+		if r.Want("stdioclean", i) {
+			cm = append(cm, i)
+		}
+	}
+	for _, i := range cm {
+		tasks = append(tasks, task{fmt.Sprintf("stdioclean-%d", i), func() { e.runStdioClean(i, col) }})
+	}
+
+	// ---- Ctrl+I sources with unusable members ----
+	var cs []int
+	for k, kind := range srcKinds {
+		if kind.uid && !uidOK {
+			continue
+		}
+		for m := range srcModes {
+			for x := range scriptExts {
+				for pa := range srcPartners {
+					if pa != 0 && !strings.HasPrefix(srcModes[m], "print-") {
+						continue // another start-up fault: there is no session to press keys in
+					}
+					if !r.Thorough() {
+						// quick: one member name per (kind, mode), rotating;
+						// printing on a TTY, without one, and to one of pipe
+						// or file; one of the Tab and one of the Ctrl+J
+						// sessions; one print run with another fault.
+						want := x == (k+m+rot)%len(scriptExts)
+						switch m {
+						case 0, 1:
+						case 2, 3:
+							want = want && m == 2+(k+rot)%2
+						case 4, 5:
+							want = want && m == 4+(k+rot)%2
+						default:
+							want = want && m == 6+(k+1+rot)%2
+						}
+						if pa != 0 {
+							want = want && m == (k+rot)%2 && pa == 1+(k+rot)%(len(srcPartners)-1)
+						}
+						if !want {
+							continue
+						}
+					} else if pa != 0 && x != (k+pa)%len(scriptExts) {
+						continue
+					}
+					if i := srcIndex(k, m, x, pa); r.Want("ctrlisrc", i) {
+						cs = append(cs, i)
+					}
+				}
+			}
+		}
+	}
+	for _, i := range cs {
+		tasks = append(tasks, task{fmt.Sprintf("ctrlisrc-%d", i), func() { e.runCtrlISrc(i, col) }})
+	}
+	mon.Parallel(len(tasks), 14, func(i int) { guard(tasks[i].name, tasks[i].f) })
+	r.Logf("clean exits and %d Ctrl+I source runs done", len(cs))
 
 	// ---- exits with insertions pending ----
 	// quick: every scenario once and the light ones a second time.
@@ -1548,7 +1775,7 @@ func Run(r *mon.Run) {
 	r.Logf("exits with insertions pending done")
 
 	// Report in a fixed order (engine, index), not in completion order.
-	order := map[string]int{"single": 0, "pair": 1, "logged": 2, "loggedpair": 3, "clean": 4, "icanhazip": 5, "pending": 6}
+	order := map[string]int{"single": 0, "pair": 1, "logged": 2, "loggedpair": 3, "stdio": 4, "stdiopair": 5, "clean": 6, "icanhazip": 7, "stdioclean": 8, "ctrlisrc": 9, "pending": 10}
 	sort.SliceStable(col.fs, func(i, j int) bool {
 		a, b := col.fs[i], col.fs[j]
 		if order[a.engine] != order[b.engine] {
@@ -1594,6 +1821,54 @@ func Run(r *mon.Run) {
 	for _, cl := range []string{clNoTTY, clListen, clCache, clCtrlI} {
 		r.Floor("openable_log_strong_oracle_runs_class_"+cl, 4)
 		r.Floor("openable_log_faults_reported_cleanly_class_"+cl, 4)
+	}
+	// Descriptors 0-2 that are not all the controlling terminal.
+	r.Floor("stdio_runs", int64(r.N(150, 600)))
+	r.Floor("stdio_termios_comparisons", int64(r.N(150, 600)))
+	r.Floor("stdio_termios_comparisons_stdin_not_the_terminal", int64(r.N(90, 350)))
+	r.Floor("stdio_faults_reported_cleanly", int64(r.N(80, 350)))
+	r.Floor("stdio_pairs", int64(r.N(16, 240)))
+	r.Floor("stdio_informational_flag_runs", int64(r.N(30, 100)))
+	for _, n := range []string{"stdin", "stdout", "stderr"} {
+		for _, k := range stdioKinds {
+			r.Floor("stdio_runs_"+n+"-"+k, 10)
+		}
+	}
+	for _, cl := range []string{clListen, clCache, clLog, clCtrlI} {
+		r.Floor("stdio_faults_reported_cleanly_class_"+cl, 8)
+		r.Floor("stdio_termios_comparisons_class_"+cl, 8)
+	}
+	// listen and cache faults are noticed after the terminal has been changed
+	r.Floor("stdio_termios_comparisons_class_"+clListen, 20)
+	r.Floor("stdio_termios_comparisons_class_"+clCache, 30)
+	r.Floor("stdio_clean_exit_runs", int64(r.N(1, 5)*len(cleanMixed)))
+	r.Floor("stdio_clean_exit_termios_comparisons", int64(r.N(1, 5)*len(cleanMixed)))
+	for _, sp := range cleanMixed {
+		r.Floor("stdio_clean_exit_runs:"+sp.how+"/stdin-"+sp.stdin, int64(r.N(1, 5)))
+	}
+	if os.Geteuid() == 0 {
+		r.Floor("stdio_runs_as_uid_65534", 20)
+	}
+	// Ctrl+I sources with unusable members.
+	nKinds := int64(0)
+	for _, k := range srcKinds {
+		if k.uid && !uidOK {
+			continue
+		}
+		nKinds++
+		r.Floor("ctrl_i_source_print_runs:"+k.name, int64(r.N(4, 30)))
+		r.Floor("ctrl_i_source_interactive_runs:"+k.name, int64(r.N(2, 12)))
+	}
+	r.Floor("ctrl_i_source_runs", nKinds*int64(r.N(6, 42)))
+	r.Floor("ctrl_i_source_termios_comparisons", nKinds*int64(r.N(4, 30)))
+	r.Floor("ctrl_i_source_exits_asked_for", nKinds*int64(r.N(1, 6)))
+	r.Floor("ctrl_i_source_reactions_to_keys_seen", nKinds*int64(r.N(1, 6)))
+	r.Floor("ctrl_i_source_runs_with_another_fault", nKinds*int64(r.N(1, 10)))
+	for _, m := range srcModes {
+		r.Floor("ctrl_i_source_runs_"+m, int64(r.N(5, 40)))
+	}
+	for _, x := range scriptExts {
+		r.Floor("ctrl_i_source_runs_member"+x, int64(r.N(20, 200)))
 	}
 	// Exits with insertions pending.
 	r.Floor("pending_exit_runs", int64(r.N(22, 52)))
